@@ -360,6 +360,7 @@ func runC06(p *core.Prog, r *core.Report) {
 		}
 		r.Pass("C06.R6", "hash-path/errors", fmt.Sprintf("%d error-returning repository calls on the hash path inspected", n))
 	})
+	r.Guard("C06.R1", "closure/AncestorsOf", "ancestor closure", func() { checkClosureFn(p, r, "C06.R1", "ModuleGraph.AncestorsOf", 1, false) })
 	r.MinInstances("C06.R1", 18)
 }
 
